@@ -249,7 +249,7 @@ impl EmptyReply {
                 this is Some ==> (this == Some(EmptyReply::Ok) && has_ok(seg_of(old(reader).log@, reader.log@)) && errors@.len() == 0), // OBL:C08.empty_reply.ok_only_without_errors
             decreases reader.remaining@.len(),                                            // OBL:C14.empty_reply.terminates
 //@end
-//@extract id=empty_reply_into_result file=netconf/src/message/rpc/mod.rs impl=/impl IntoResult for EmptyReply/ fn=into_result rules=R1 vis=pub
+//@extract id=empty_reply_into_result file=netconf/src/message/rpc/mod.rs impl=/impl IntoResult for EmptyReply/ fn=into_result rules=R1,R2 vis=pub
 //@sig pub fn into_result(self) -> (res: Result<(), crate::Error>)
 //@contract
         ensures match self { EmptyReply::Ok => res is Ok, EmptyReply::Errs(errs) => res == Err::<(), crate::Error>(crate::Error::RpcError(errs)) },  // OBL:C08.empty_reply.into_result
@@ -293,7 +293,7 @@ impl<D: ReadXml> DataReply<D> {
 //@end
 }
 impl<D> DataReply<D> {
-//@extract id=data_reply_into_result file=netconf/src/message/rpc/mod.rs impl=/impl<D> IntoResult for DataReply<D>/ fn=into_result rules=R1 vis=pub
+//@extract id=data_reply_into_result file=netconf/src/message/rpc/mod.rs impl=/impl<D> IntoResult for DataReply<D>/ fn=into_result rules=R1,R2 vis=pub
 //@sig pub fn into_result(self) -> (res: Result<D, crate::Error>)
 //@contract
         ensures match self { DataReply::Data(d) => res == Ok::<D, crate::Error>(d), DataReply::Errs(errs) => res == Err::<D, crate::Error>(crate::Error::RpcError(errs)) },  // OBL:C08.data_reply.into_result
@@ -338,10 +338,10 @@ impl BareReply {
                 all_parsed(seg_of(old(reader).log@, reader.log@)),                        // OBL:C08.bare_reply.no_error_skipped
             decreases reader.remaining@.len(),                                            // OBL:C14.bare_reply.terminates
 //@end
-//@extract id=bare_reply_into_result file=netconf/src/message/rpc/operation/junos/mod.rs impl=/impl IntoResult for BareReply/ fn=into_result rules=R1 vis=pub
+//@extract id=bare_reply_into_result file=netconf/src/message/rpc/operation/junos/mod.rs impl=/impl IntoResult for BareReply/ fn=into_result rules=R1,R2 vis=pub
 //@sig pub fn into_result(self) -> (res: Result<(), crate::Error>)
 //@contract
-        ensures match self { BareReply::Ok => res is Ok, BareReply::Errs(errs) => res == Err::<(), crate::Error>(crate::Error::RpcError(errs)) },  // OBL:C08.bare_reply.into_result
+        ensures match self { BareReply::Ok => res is Ok, BareReply::Errs(errs) => res == Err::<(), crate::Error>(crate::Error::RpcError(errs)) },  // OBL:C08+C04.bare_reply.into_result
 //@end
 }
 // positive indication of the bare Junos operations = an (otherwise) empty reply
@@ -405,7 +405,7 @@ impl Reply {
 //@before /let end = tag\.to_end\(\);/
                     let ghost rem_at_results = reader.remaining@.len();
 //@end
-//@extract id=load_reply_into_result file=netconf/src/message/rpc/operation/junos/load_configuration.rs impl=/impl IntoResult for Reply/ fn=into_result rules=R1 vis=pub
+//@extract id=load_reply_into_result file=netconf/src/message/rpc/operation/junos/load_configuration.rs impl=/impl IntoResult for Reply/ fn=into_result rules=R1,R2 vis=pub
 //@sig pub fn into_result(self) -> (res: Result<(), crate::Error>)
 //@contract
         ensures match self { Reply::Ok => res is Ok, Reply::Errs(errs) => res == Err::<(), crate::Error>(crate::Error::RpcError(errs)) },  // OBL:C08+C04.load_reply.into_result
